@@ -203,7 +203,7 @@ func TestCheck(t *testing.T) {
 	r.Set("boundary_cases", k)
 	r.Set("boundary_lengths", gen4.BoundaryLens)
 	// (2) generated packets
-	n := r.Pick(30000, 1000000)
+	n := r.Pick(100000, 6000000)
 	for i := 0; i < n; i++ {
 		if r.Mine(i) {
 			runCase(r, "gen", i)
